@@ -288,6 +288,153 @@ theorem sqfsCopy_view (D : Kind → CopyDesc) (hD : ∀ k, WfDesc (D k)) (n : Na
       intro s hs
       exact slotVal_congr s (fun b hsb => hsl.bufsOld b (hslot s hs b hsb))
 
+/-- allocated size behind a slot -/
+def slotCap (h : Heap) : Option Nat → Option Nat
+  | none => none
+  | some b => (h.bufs b).map (·.cap)
+
+/-- hooks that duplicate every buffer at its allocated size (`dup` everywhere — required of kinds that do not record
+the size next to the pointer): the copy's buffers are as large as the original's -/
+theorem copyBufs_caps : ∀ (bs : List (Option Nat)) (as : List BufAct) (h : Heap),
+    (∀ a ∈ as, a = .dup) → (∀ b, some b ∈ bs → b < h.nbuf) →
+    ∀ h' nb ok, copyBufs h bs as = (h', nb, ok) →
+      h.nbuf ≤ h'.nbuf ∧ (∀ b, b < h.nbuf → h'.bufs b = h.bufs b) ∧
+      (ok = true → bs.length ≤ as.length → nb.map (slotCap h') = bs.map (slotCap h)) := by
+  intro bs
+  induction bs with
+  | nil =>
+    intro as h _ _ h' nb ok he
+    simp only [copyBufs, Prod.mk.injEq] at he
+    obtain ⟨rfl, rfl, rfl⟩ := he
+    exact ⟨Nat.le_refl _, fun _ _ => rfl, fun _ _ => rfl⟩
+  | cons x bs ih =>
+    intro as h hw hbd h' nb ok he
+    cases as with
+    | nil =>
+      simp only [copyBufs, Prod.mk.injEq] at he
+      obtain ⟨rfl, rfl, rfl⟩ := he
+      exact ⟨Nat.le_refl _, fun _ _ => rfl, fun _ hl => by simp at hl⟩
+    | cons a as =>
+      have hw' : ∀ a' ∈ as, a' = .dup := fun a' ha' => hw a' (List.mem_cons_of_mem _ ha')
+      have hbd' : ∀ b, some b ∈ bs → b < h.nbuf := fun b hb => hbd b (List.mem_cons_of_mem _ hb)
+      have ha : a = .dup := hw a List.mem_cons_self
+      subst ha
+      cases x with
+      | none =>
+        rcases hr : copyBufs h bs as with ⟨h1, nb1, ok1⟩
+        simp only [copyBufs, hr, consSlot, Prod.mk.injEq] at he
+        obtain ⟨rfl, rfl, rfl⟩ := he
+        obtain ⟨i1, i2, i3⟩ := ih as h hw' hbd' _ _ _ hr
+        refine ⟨i1, i2, fun hk hl => ?_⟩
+        simp only [List.map_cons]
+        rw [i3 hk (by simpa using hl)]
+        rfl
+      | some b =>
+        simp only [copyBufs, reduceCtorEq, if_false] at he
+        cases hbf : h.bufs b with
+        | none =>
+          simp only [hbf, Prod.mk.injEq] at he
+          obtain ⟨rfl, rfl, rfl⟩ := he
+          obtain ⟨f1, f2⟩ := fail_bufs h .useAfterFree
+          exact ⟨by rw [f2]; exact Nat.le_refl _, fun _ _ => by rw [f1], fun hk => by cases hk⟩
+        | some bf =>
+          simp only [hbf, reduceCtorEq, false_and, if_false] at he
+          obtain ⟨tb1, tb2⟩ := takeAlloc_bufs h
+          rcases allocBuf_spec h bf with hal | hal
+          · rw [hal] at he
+            simp only [Prod.mk.injEq] at he
+            obtain ⟨rfl, rfl, rfl⟩ := he
+            exact ⟨by rw [tb2]; exact Nat.le_refl _, fun _ _ => by rw [tb1], fun hk => by cases hk⟩
+          · rw [hal] at he
+            simp only at he
+            rcases hr : copyBufs ({ (takeAlloc h).1 with bufs := upd h.bufs h.nbuf (some bf), nbuf := h.nbuf + 1 } : Heap) bs as with ⟨h1, nb1, ok1⟩
+            rw [hr] at he
+            simp only [consSlot, Prod.mk.injEq] at he
+            obtain ⟨rfl, rfl, rfl⟩ := he
+            obtain ⟨i1, i2, i3⟩ := ih as _ hw' (fun b' hb' => by have := hbd' b' hb'; show b' < h.nbuf + 1; omega) _ _ _ hr
+            have old : ∀ b', b' < h.nbuf → h1.bufs b' = h.bufs b' := by
+              intro b' hb'
+              rw [i2 b' (by show b' < h.nbuf + 1; omega)]
+              have : b' ≠ h.nbuf := by omega
+              simp [upd, this]
+            refine ⟨by have : h.nbuf + 1 ≤ h1.nbuf := i1; omega, old, fun hk hl => ?_⟩
+            simp only [List.map_cons]
+            rw [i3 hk (by simpa using hl)]
+            congr 1
+            · have hnew : h1.bufs h.nbuf = some bf := by
+                rw [i2 h.nbuf (by show h.nbuf < h.nbuf + 1; omega)]; simp [upd]
+              simp [slotCap, hnew, hbf]
+            · apply List.map_congr_left
+              intro sl hsl
+              cases sl with
+              | none => rfl
+              | some b' =>
+                have hlt := hbd' b' hsl
+                have : b' ≠ h.nbuf := by omega
+                simp [slotCap, upd, this]
+
+theorem slotCap_congr {h1 h2 : Heap} (s : Option Nat) (hs : ∀ b, s = some b → h1.bufs b = h2.bufs b) : slotCap h1 s = slotCap h2 s := by
+  cases s with
+  | none => rfl
+  | some b => simp [slotCap, hs b rfl]
+
+/-- for hooks that `dup` every buffer, the copy's buffer slots are allocated as large as the original's -/
+theorem sqfsCopy_caps (D : Kind → CopyDesc) (hD : ∀ k, WfDesc (D k)) (n : Nat) {h : Heap} {U : Nat → Nat} {x : Nat} {o : Obj}
+    (hb : Bal h U [] [] []) (hbud : h.budget = none) (hox : h.objs x = some o) (hxn : x < n + 1)
+    (hdup : ∀ a ∈ (D o.kind).bufs, a = .dup) (hs1 : o.bufs.length ≤ (D o.kind).bufs.length)
+    {h' : Heap} {c : Nat} (he : sqfsCopy D (n + 1) h x = (h', some c)) :
+    ∃ oc, h'.objs c = some oc ∧ oc.bufs.map (slotCap h') = o.bufs.map (slotCap h) := by
+  have hxl : (h.objs x).isSome := by simp [hox]
+  obtain ⟨hd, hc, _, _, hrefs, hviews⟩ := hb.live x o hox (by simp)
+  obtain ⟨hw1, hw2, hw3, hw4, _, hw6⟩ := hD o.kind
+  have hbl : ∀ b, some b ∈ o.bufs → (h.bufs b).isSome := fun b hbm => hb.buf_live hox (by simp) hbm
+  have hbb : ∀ b, some b ∈ o.bufs → b < h.nbuf := fun b hbm => hb.bufBound b (hbl b hbm)
+  obtain ⟨hA, hB, nb, nr, htk, hloops, hfin⟩ := sqfsCopy_anatomy D n h h' x c o hb.ok hox he
+  obtain ⟨bud, hta, htb⟩ := takeAlloc_spec h
+  have hbud0 : bud = none := (htb hbud).2
+  subst hbud0
+  have h0eq : (takeAlloc h).1 = h := by rw [hta]; cases h; simp_all
+  rw [h0eq] at hloops
+  have hrl : ∀ r, some r ∈ o.refs → (h.objs r).isSome ∧ r < n :=
+    fun r hr => ⟨hb.ref_live hox (by simp) hr, by have := hrefs r hr; omega⟩
+  have ih := sqfsCopy_bal D hD n
+  have hcaps : nb.map (slotCap hB) = o.bufs.map (slotCap h) := by
+    rcases hloops with ⟨hr1, hr2⟩ | ⟨hr1, hr2⟩
+    · obtain ⟨hb1, hsA, _, _, _⟩ := copyRefs_bal (sqfsCopy D n) n ih o.refs (D o.kind).refs hb hw4 hrl _ _ _ hr1
+      obtain ⟨hsA, _⟩ := hsA rfl
+      obtain ⟨_, _, hv⟩ := copyBufs_caps o.bufs (D o.kind).bufs hA hdup (fun b hbm => Nat.lt_of_lt_of_le (hbb b hbm) hsA.nbuf) _ _ _ hr2
+      rw [hv rfl hs1]
+      apply List.map_congr_left
+      intro s hs
+      exact slotCap_congr s (fun b hsb => hsA.bufsOld b (hbb b (hsb ▸ hs)))
+    · obtain ⟨_, hold, hv⟩ := copyBufs_caps o.bufs (D o.kind).bufs h hdup hbb _ _ _ hr1
+      obtain ⟨hb1, hsA, hoA, hnA, hfA, _, _⟩ := copyBufs_bal o.bufs (D o.kind).bufs hb hw2 hbl _ _ _ hr1
+      obtain ⟨hb2, hsB, _, _, _⟩ := copyRefs_bal (sqfsCopy D n) n ih o.refs (D o.kind).refs hb1 hw4
+        (fun r hr => ⟨by rw [hoA]; exact (hrl r hr).1, (hrl r hr).2⟩) _ _ _ hr2
+      obtain ⟨hsB, _⟩ := hsB rfl
+      rw [← hv rfl hs1]
+      apply List.map_congr_left
+      intro s hs
+      apply slotCap_congr
+      intro b hsb
+      subst hsb
+      have hm : b ∈ nb.filterMap id ++ ([] : List Nat) := by
+        simp only [List.append_nil, List.mem_filterMap, id]
+        exact ⟨some b, hs, rfl⟩
+      have hcnt : (nb.filterMap id ++ ([] : List Nat)).count b ≠ 0 := by
+        have := List.count_pos_iff.mpr hm; omega
+      have hlive : (hA.bufs b).isSome := by
+        cases hv : hA.bufs b with
+        | some _ => rfl
+        | none => exact absurd (hb1.bufDead b hv).1 hcnt
+      exact hsB.bufsOld b (hb1.bufBound b hlive)
+  unfold finishCopy at hfin
+  simp only [Prod.mk.injEq, Option.some.injEq] at hfin
+  obtain ⟨rfl, rfl⟩ := hfin
+  refine ⟨_, upd_same _ _ _, ?_⟩
+  rw [← hcaps]
+  exact List.map_congr_left (fun s _ => slotCap_congr s (fun _ _ => rfl))
+
 /-- the object has (at most) the slots its kind's hook description lists, and each internal pointer points at the
 buffer slot the description names -/
 def ShapeOk (d : CopyDesc) (o : Obj) : Prop :=
